@@ -76,6 +76,14 @@ func busy(db *localstore.DB, r *hx.Rand, n int) (held bool, wait func()) {
 	return held, func() { <-done }
 }
 
+// busySize: chunks of the batched Put that keeps batchMu busy (smaller under -race, where every write is ~10x slower)
+func busySize(r *hx.Rand) int {
+	if RaceEnabled {
+		return 300 + r.Intn(300)
+	}
+	return 1500 + r.Intn(1500)
+}
+
 func counterHolds(d localstore.VerifDump) bool { return d.GCSize == GCSum(d) }
 
 // binsConsistent: with no removal in the history, every bin's counter equals
@@ -128,7 +136,7 @@ func ConcPuts(run *hx.Run, cc ConcCase) {
 	overlapped := 0
 	for round := 0; round < cc.Rounds; round++ {
 		addr := boson.NewAddress(r.Bytes(32))
-		held, wait := busy(db, r, 1500+r.Intn(1500))
+		held, wait := busy(db, r, busySize(r))
 		if held {
 			overlapped++
 		}
@@ -238,7 +246,7 @@ func ConcGets(run *hx.Run, cc ConcCase) {
 	before, _ := db.VerifDump()
 	overlapped := 0
 	for round := 0; round < cc.Rounds; round++ {
-		held, wait := busy(db, r, 1500+r.Intn(1500))
+		held, wait := busy(db, r, busySize(r))
 		if held {
 			overlapped++
 		}
